@@ -2,6 +2,7 @@ SPECIFICATION SSpec
 CONSTANTS
   Acc = {"a", "b"}
   Members = {"a", "b"}
+  MaxJoins = 2
   MaxMsgs = 3
   MaxFaults = 2
   MaxOpen = 1
